@@ -201,12 +201,18 @@ bool splinetable<Alloc>::read_fits_core_impl(fitsfile* fits, const std::string& 
 	//CFITSIO does not check reads from memory 'files' against the size of the
 	//buffer, so a header which declares more data than the buffer holds must
 	//be caught here.
-	auto check_data_present=[&](uint64_t elements, uint64_t elementSize){
+	auto check_data_present=[&](uint64_t elements){
 		if(!fileSize)
 			return;
 		LONGLONG headstart=0, datastart=0, dataend=0;
-		int status=0;
+		int status=0, bitpix=0;
 		fits_get_hduaddrll(fits, &headstart, &datastart, &dataend, &status);
+		//the size of an element is that of the type stored in the file,
+		//which need not be the type the values are converted to
+		fits_get_img_type(fits, &bitpix, &status);
+		const uint64_t elementSize=(bitpix<0 ? -bitpix : bitpix)/8;
+		if(status!=0 || elementSize==0)
+			throw std::runtime_error("Unable to determine the type of the data stored in "+filePath);
 		//data are read in whole 2880 byte FITS records
 		const uint64_t record=2880;
 		//the data unit as declared by this header (which includes any random
@@ -414,7 +420,7 @@ bool splinetable<Alloc>::read_fits_core_impl(fitsfile* fits, const std::string& 
 	coefficients = allocate<float>(ncoeffs);
 	
 	std::vector<long> fpixel(ndim,1);
-	check_data_present(ncoeffs,sizeof(float));
+	check_data_present(ncoeffs);
 	fits_read_pix(fits, TFLOAT, fpixel.data(), ncoeffs, NULL,
 				  &coefficients[0], NULL, &error);
 	
@@ -458,7 +464,7 @@ bool splinetable<Alloc>::read_fits_core_impl(fitsfile* fits, const std::string& 
 		//TODO: should the 'off the end' entries of knots be set to zero?
 		
 		long fpix = 1;
-		check_data_present(nknots[i],sizeof(double));
+		check_data_present(nknots[i]);
 		fits_read_pix(fits, TDOUBLE, &fpix, nknots[i], NULL, &knots[i][0], NULL, &error);
 		if (error != 0)
 			throw std::runtime_error("Error reading knot vector "+std::to_string(i)+" data");
@@ -517,7 +523,7 @@ bool splinetable<Alloc>::read_fits_core_impl(fitsfile* fits, const std::string& 
 				extents[i][1] = knots[i][nknots[i] - order[i] - 1];
 			}
 		} else {
-			check_data_present(n_extents,sizeof(double));
+			check_data_present(n_extents);
 			fits_read_pix(fits, TDOUBLE, &fpix, n_extents, NULL,
 						  &extents[0][0], NULL, &ext_error);
 			if (ext_error!=0)
